@@ -35,7 +35,21 @@ MANIFEST = {
             "after the last one, followed by the response, is reported as 'NACK and response' (never both) and is NOT taken for the open "
             "finding (whose NACK is on time); schedules in which only the LAST transmission(s) of a request get through are generated "
             "routinely. OBSERVATION ONLY (no theorem, no model): op xchg2 runs TWO client sessions with equal message ids "
-            "in one context (shared context->sendqueue) and judges the implementation's trace by the oracle alone.",
+            "in one context (shared context->sendqueue) and judges the implementation's trace by the oracle alone."
+            " SEVERAL SESSIONS OF ONE CONTEXT ('one exchange outstanding per session'; the sessions share context->sendqueue and may "
+            "use equal message ids): on the model of that queue and of the message layer with any number of sessions (Coap.SQ / "
+            "Coap.Msg / Coap.MsgX, tied to the compiled code by op msg) coap_remove_from_queue is proved to be keyed by session AND "
+            "id - every other entry, in particular every entry of another session with the same id, keeps its place and deadline "
+            "(shared_queue_remove_keeps_everybody_else, shared_queue_remove_other_sessions_untouched, shared_queue_remove_takes_own); "
+            "an Empty ACK / RST / invalid ACK / piggybacked response processed on one session leaves every other session's con_active, "
+            "delay queue and queued Confirmables as they were (reply_concludes_own_session_only, "
+            "piggybacked_reply_concludes_own_session_only); over every run with any interleaving and any id collisions a request "
+            "accepted once and no longer pending has been concluded exactly once, by its NACK or by a reply received on ITS session "
+            "(shared_queue_exactly_once_per_session, reply_on_other_session_concludes_nothing, "
+            "replies_on_other_sessions_never_conclude). Checked on the implementation: 2..6 sessions with colliding ids, every queue "
+            "order of the colliding nodes, lost / Empty ACK / piggybacked / duplicated / RST replies - per request response-handler "
+            "calls + NACKs counted on its own session (never both, twice, neither), no retransmission after its reply, exact trace "
+            "equality with the model.",
     "note": "PARTIAL: open finding unsolicited_response_delivered - the client keeps no record of outstanding tokens, so a response "
             "arriving after the NACK, or a second response message from a server that processed a retransmitted request again, is "
             "delivered again; the theorems' hypotheses exclude exactly that: the server piggybacks or de-duplicates (then 'one response "
@@ -46,11 +60,15 @@ MANIFEST = {
             "theorems (Sys: logs of transmitted datagrams, any copy deliverable) is an abstraction of the harness event loop Sim.run, "
             "not proved equal to it. For the out-of-RFC personality 'da' only 'never twice' and the hypothesis-free clauses are claimed "
             "(an ACK whose mid matches nothing does not take the request off the retransmission queue: observation O5). Several "
-            "sessions sharing one context's send queue are not modelled (C06 models that queue); xchg2 is judged by the oracle only. Trusted: Lean kernel (+ propext, Classical.choice, Quot.sound), harness/exchange.c + sim_core.h, "
+            "sessions sharing one context's send queue: the run-level exactly-once theorem is over the message-layer alphabet (Empty ACK, "
+            "RST, invalid ACK, separate response); for piggybacked responses with several sessions the step theorem and the trace tie are "
+            "what is shown; the server personalities / lossy network of xchg are not combined with several sessions (xchg2 is judged by "
+            "the oracle only). Trusted: Lean kernel (+ propext, Classical.choice, Quot.sound), harness/exchange.c + sim_core.h, "
             "generators and oracle, the hand transcription M (checked against the compiled code on the schedules run only).",
     "design_ref": "DESIGN.md §4 C07, design/C07.md",
 }
-LEAN_MODULES = ["CoapVerif.Props.C07", "CoapVerif.Props.C07Late", "CoapVerif.Props.C07Sim", "CoapVerif.Props.C07Pers"]
+LEAN_MODULES = ["CoapVerif.Props.C07", "CoapVerif.Props.C07Late", "CoapVerif.Props.C07Sim", "CoapVerif.Props.C07Pers",
+                "CoapVerif.Props.C07Shared"]
 NAMESPACE = "Coap.C07"
 REQUIRED_THEOREMS = ["exactly_once_partial", "response_stops_retransmission", "con_response_always_acked",
                      "fail_verdict_resets", "non_delivered_once_per_datagram", "at_most_one_conclusion",
@@ -70,7 +88,14 @@ REQUIRED_THEOREMS = ["exactly_once_partial", "response_stops_retransmission", "c
                      # refinement: the harness loop Sim.run (what is compared with the real code) is a run of the closed loop Sys
                      "sim_run_refines_sys", "sim_run_is_sys_run", "sim_exactly_once_partial", "sim_exactly_once_piggybacked",
                      # the exclusion of dn / da from exactly_once_closed_loop_partial is necessary (decided runs of Sys)
-                     "dn_duplicate_delivered_twice_witness", "da_response_then_nack_witness"]
+                     "dn_duplicate_delivered_twice_witness", "da_response_then_nack_witness",
+                     # several sessions of one context share the send queue (message ids may collide): removal is by (session, id),
+                     # a reply concludes on its own session only, exactly once per session over every interleaving
+                     "shared_queue_remove_keeps_everybody_else", "shared_queue_remove_other_sessions_untouched",
+                     "shared_queue_remove_takes_own", "reply_concludes_own_session_only",
+                     "piggybacked_reply_concludes_own_session_only", "reply_on_other_session_concludes_nothing",
+                     "shared_queue_exactly_once_per_session", "shared_queue_at_most_once_per_session",
+                     "replies_on_other_sessions_never_conclude"]
 RULE = ("schedules for harness/exchange.c (real client + real server context, virtual clock, scripted network): server personality "
         "(piggyback, coap_async delayed / triggered, application-delayed separate CON / NON / ACK-typed-with-own-mid, each with and "
         "without application-level request de-duplication) x request token (default 2 bytes, zero-length, 1 byte, 2..8 bytes) x fate of every datagram in order of transmission (deliver after d ms / drop / duplicate) x scripted "
@@ -79,10 +104,14 @@ RULE = ("schedules for harness/exchange.c (real client + real server context, vi
         "loss/dup/delay beyond; op xchg2: the same requests on two client sessions of one context with equal message ids, every drop "
         "pattern over the first 8 datagrams per personality + random schedules; 'last chance': the first 3 / 4 / 5 transmissions lost, then "
         "every loss/delay pattern (1, 700, 1999 ms) over the next three datagrams per personality, and random runs with a block of 3..9 "
-        "losses followed by deliveries with delays below ACK_TIMEOUT; "
+        "losses followed by deliveries with delays below ACK_TIMEOUT; op msg (harness/msg.c): 2..6 sessions of one context, rounds in which "
+        "every session sends one request (message ids equal between sessions, any order, any initial timeout), the k-th datagram meets the "
+        "k-th fate (lost / Empty ACK / piggybacked response / duplicate / RST, delays 1..1999 ms), the I/O loop runs until nothing is pending "
+        "before the next round; exhaustive: 3 sessions x 4 collision patterns x 6 deadline orders x 4^3 fates, 4 sessions x 24 orders x 2^4; "
         "non-trivial = distinct schedule in which the response handler or the NACK handler ran")
 TRUSTED_BASE = ["Lean 4.33 kernel; axioms allowed: propext, Classical.choice, Quot.sound (audited per theorem each run)",
                 "harness/exchange.c + harness/sim_core.h (virtual clock, scripted network, simulation loop), generators, the trace oracle in props/C07.py",
+                "harness/msg.c + Driver/Msg.lean (scenario interpreter of op msg, shared with C06 / C08), vlib/msglib.py (trace parsing, tie)",
                 "M (CoapVerif/Model/Exchange.lean) is a hand transcription of coap_dispatch/handle_response/coap_send_pdu/coap_retransmit/"
                 "coap_session_connected/coap_cancel_all_messages and of the async gate of handle_request; checked against the compiled code "
                 "by exact trace equality on the schedules run only"]
